@@ -161,8 +161,8 @@ def build(tier):
         'targets': targets, 'vcs': pv, 'functions': pf, 'bounded': [tpos],
         'decided': ['histogram_t::update (double, int64, int32 samples; int16 / int8 in the thorough tier): bins = thresholds+1 slots in buffers of their own, the bins are consecutive ranges of the sorted values that tile them exactly once, a value lies in bin b only if t_{b-1} <= v < t_b and -- the thresholds being sorted -- only if b = #{j : t_j <= v} (the counting rule of bin(v), at a ghost threshold), count = range length; the precondition of its std::upper_bound calls (range partitioned w.r.t. the comparator) follows from the sorted values',
                     'update_bin: count / mean / median over exactly its range, NaN for an empty bin; mean is called with count == distance(begin, end) > 0',
-                    'histogram_t::mean for int8 / int16 / int32 / int64 / double samples: the accumulator of std::accumulate has type scalar_t (the type of init), starts at 0, every step of the fold adds the element CONVERTED to scalar_t (the extracted lambda, with CBMC\'s overflow / conversion obligations), the result is that sum divided by count; update_bin stores exactly this value',
-                    'constructor histogram_t(begin, end, thresholds) (int32 / int64 / double samples; int16 / int8 thorough): establishes the representation invariant (values sorted, thresholds sorted and not NaN, at ghost indices, from std::sort\'s contract), owns the thresholds it was given, and calls update() INSIDE its precondition (update is replaced by its contract: every requires clause is an obligation at the call site); its postcondition is the partition / counting-rule clause of the property for thresholds given directly',
+                    'histogram_t::mean for int16 / double samples (int8 / int32 / int64 in the thorough tier): the accumulator of std::accumulate has type scalar_t (the type of init), starts at 0, every step of the fold adds the element CONVERTED to scalar_t (the extracted lambda, with CBMC\'s overflow / conversion obligations), the result is that sum divided by count; update_bin stores exactly this value',
+                    'constructor histogram_t(begin, end, thresholds) (int32 samples; int8 / int16 / int64 / double thorough): establishes the representation invariant (values sorted, thresholds sorted and not NaN, at ghost indices, from std::sort\'s contract), owns the thresholds it was given, and calls update() INSIDE its precondition (update is replaced by its contract: every requires clause is an obligation at the call site); its postcondition is the partition / counting-rule clause of the property for thresholds given directly',
                     'make_from_thresholds (int64 samples; int16 / int32 / double thorough): constructs exactly one histogram over the WHOLE value list with the thresholds it was given, inside the constructor\'s precondition (constructor replaced by its contract)',
                     'the position->value lambdas of percentile_sorted (value stored at the position) and percentile (k-th smallest via nth_element)',
                     'median / median_sorted against the sorted-array reference: the middle order statistic for odd n, the mean of the two middle ORDER STATISTICS for even n; std::nth_element is given exactly its standard contract (nth is the order statistic, left part <=, right part >=, nothing about the order inside the parts), so `*std::prev(middle)` after one nth_element is refuted while `*std::max_element(begin, middle)` and the library\'s own two-call version are proved; std::prev / next / advance / distance on the pointer iterators',
